@@ -82,15 +82,21 @@ class Cmp:
         return 1
 
 
+class Ix:
+    """not an int, but usable as an index (operator.index): numpy-style integer scalars behave like this"""
+    def __index__(self):
+        return 6
+
+
 def palette(fam_char, wide=True):
     if wide:
         ints = [0, 1, -1, 5, 2 ** 31 - 1, 2 ** 31, -2 ** 31, -2 ** 31 - 1, 2 ** 32 - 1, 2 ** 32, 2 ** 63 - 1, 2 ** 63, -2 ** 63, -2 ** 63 - 1,
                 2 ** 64 - 1, 2 ** 64, 2 ** 70, -2 ** 70]
         other = [None, True, False, 1.0, 1.5, float('inf'), float('nan'), 1e40, 'a', '', b'ab', b'abcdef', b'x', (1,), (), [1], Plain(), Plain,
-                 Cmp(3), 3 + 0j]
+                 Cmp(3), 3 + 0j, Ix()]
     else:
         ints = [5, -1, 2 ** 31 - 1, 2 ** 31, -2 ** 31 - 1, 2 ** 32, 2 ** 63, -2 ** 63 - 1, 2 ** 64, 2 ** 70]
-        other = [None, True, 1.5, 1e40, 'a', b'ab', b'abcdef', (1,), Plain(), Cmp(3)]
+        other = [None, True, 1.5, 1e40, 'a', b'ab', b'abcdef', (1,), Plain(), Cmp(3), Ix()]
     return ints + other
 
 
